@@ -54,7 +54,12 @@ fn {kind}_sq_{sq:02}() {{
     return {"package": "inkayaku_board", "append_to": "board/src/board.rs", "module": body}
 
 
+def set_zobrist():
+    return {"package": "inkayaku_board", "append_to": "board/src/board/zobrist.rs", "module": _read("kani/zobrist.rs")}
+
+
 SETS = {
+    "zobrist": set_zobrist,
     "rules": set_rules,
     "tables": set_tables,
 }
@@ -71,6 +76,11 @@ def _table_harnesses():
 
 HARNESSES = {
     "tables": _table_harnesses(),
+    "zobrist": {
+        "accessors_in_bounds_and_zero_rows": {"complete": True, "note": "symbolic (piece<7, square<64, color<=1) and any e.p. square"},
+        "castle_keys": {"complete": True, "note": "concrete: the four castle constants"},
+        "keys_nonzero_distinct": {"complete": True, "note": "symbolic pair of indices over all 781 keys"},
+    },
     # set -> harness -> meta
     "rules": {
         "wf_preserved": {"complete": True, "note": "full symbolic position (12 bitboards, rights, side, e.p., clocks) and packed move; loop-free"},
